@@ -7,6 +7,7 @@ package main
 import (
 	"bytes"
 	"context"
+	"encoding/hex"
 	"encoding/json"
 	"fmt"
 	"go/types"
@@ -172,6 +173,27 @@ type replayParam struct {
 
 const maxReplayElems = 1 << 16
 
+// entryHeap names the entry version of a heap key, or a constant that does
+// not occur in any query when the function never touched that key.
+func (c *FnCtx) entryHeap(key string) string {
+	if _, ok := c.heapSort[key]; !ok {
+		return "H_unused_" + key
+	}
+	if t, ok := c.entry.ep.cache[key]; ok {
+		return t
+	}
+	return "H_unused_" + key
+}
+
+func safeReplay(eng *Engine, o *Obligation, dir, name string) (rec map[string]interface{}) {
+	defer func() {
+		if r := recover(); r != nil {
+			rec = map[string]interface{}{"confirmed": false, "reason": fmt.Sprintf("replay construction failed: %v", r)}
+		}
+	}()
+	return tryReplay(eng, o, dir, name)
+}
+
 // tryReplay builds and runs the test. Only functions whose parameters are
 // integers, booleans, strings, slices of integers and pointers to arrays of
 // integers are replayed; anything else yields no replay.
@@ -245,6 +267,7 @@ func tryReplay(eng *Engine, o *Obligation, dir, name string) map[string]interfac
 	}
 	// pass 2: contents
 	var terms2 []string
+	var strElems []string
 	type sliceInfo struct {
 		ref, off, ln, cp int64
 	}
@@ -262,9 +285,14 @@ func tryReplay(eng *Engine, o *Obligation, dir, name string) map[string]interfac
 			sinfo[p.Name] = sliceInfo{ref, off, ln, cp}
 			if ref != 0 {
 				key := heapKey(p.V.Root, nil)
-				h := c.epochGet(c.entry.ep, key)
+				h := c.entryHeap(key)
 				for i := int64(0); i < cp; i++ {
-					terms2 = append(terms2, sx("select", sx("select", h, p.V.Ref), add(p.V.Off, num(i))))
+					el := sx("select", sx("select", h, p.V.Ref), add(p.V.Off, num(i)))
+					terms2 = append(terms2, el)
+					if kindOf(p.V.Root) == kStr {
+						terms2 = append(terms2, sx("slen", el))
+						strElems = append(strElems, el)
+					}
 				}
 			}
 		case kStr:
@@ -278,7 +306,7 @@ func tryReplay(eng *Engine, o *Obligation, dir, name string) map[string]interfac
 		case kPtr:
 			if at, ok := pointee(p.V).Underlying().(*types.Array); ok {
 				key := heapKey(at.Elem(), nil)
-				h := c.epochGet(c.entry.ep, key)
+				h := c.entryHeap(key)
 				for i := int64(0); i < at.Len(); i++ {
 					terms2 = append(terms2, sx("select", sx("select", h, p.V.Ref), num(i)))
 				}
@@ -310,7 +338,75 @@ func tryReplay(eng *Engine, o *Obligation, dir, name string) map[string]interfac
 			}
 		}
 	}
+	// pass 3: characters of string elements (strings are abstract values in
+	// the model: equal abstract values must become equal Go strings)
+	strOf := map[string]string{}
+	if len(strElems) > 0 {
+		var terms3 []string
+		for _, el := range strElems {
+			if n, ok := sexpInt(vals2[sx("slen", el)]); ok && n.IsInt64() && n.Int64() <= 64 {
+				for j := int64(0); j < n.Int64(); j++ {
+					terms3 = append(terms3, sx("sat", el, num(j)))
+				}
+			}
+		}
+		pins2 := append([]string{}, pins...)
+		for t, v := range vals2 {
+			if !strings.Contains(v.String(), "!val!") {
+				pins2 = append(pins2, eq(t, v.String()))
+			}
+		}
+		vals3 := map[string]*sexp{}
+		if len(terms3) > 0 {
+			if v3, ok := getValues(o.queryFile, pins2, terms3, dir, name+".3"); ok {
+				vals3 = v3
+			}
+		}
+		byAbs := map[string]string{}
+		content := map[string]string{}
+		collide := false
+		for _, el := range strElems {
+			abs := ""
+			if v, ok := vals2[el]; ok {
+				abs = v.String()
+			}
+			var bs []byte
+			if n, ok := sexpInt(vals2[sx("slen", el)]); ok && n.IsInt64() && n.Int64() <= 64 {
+				for j := int64(0); j < n.Int64(); j++ {
+					ch := byte('a')
+					if cv, ok := sexpInt(vals3[sx("sat", el, num(j))]); ok && cv.IsInt64() {
+						ch = byte(cv.Int64())
+					}
+					bs = append(bs, ch)
+				}
+			}
+			if prev, ok := byAbs[abs]; ok && prev != string(bs) {
+				collide = true
+			}
+			byAbs[abs] = string(bs)
+			for a2, c2 := range byAbs {
+				if a2 != abs && c2 == string(bs) {
+					collide = true
+				}
+			}
+			content[el] = string(bs)
+		}
+		for _, el := range strElems {
+			if collide {
+				abs := "?"
+				if v, ok := vals2[el]; ok {
+					abs = v.String()
+				}
+				strOf[el] = "v_" + sanitize(abs)
+			} else {
+				strOf[el] = content[el]
+			}
+		}
+	}
 	elem := func(t string) string {
+		if s, ok := strOf[t]; ok {
+			return fmt.Sprintf("%q", s)
+		}
 		if v, ok := vals2[t]; ok {
 			if n, ok := sexpInt(v); ok {
 				return n.String()
@@ -364,7 +460,7 @@ func tryReplay(eng *Engine, o *Obligation, dir, name string) map[string]interfac
 				break
 			}
 			key := heapKey(p.V.Root, nil)
-			h := c.epochGet(c.entry.ep, key)
+			h := c.entryHeap(key)
 			var es []string
 			for i := int64(0); i < si.cp; i++ {
 				es = append(es, elem(sx("select", sx("select", h, p.V.Ref), add(p.V.Off, num(i)))))
@@ -384,7 +480,7 @@ func tryReplay(eng *Engine, o *Obligation, dir, name string) map[string]interfac
 		case kPtr:
 			at := pointee(p.V).Underlying().(*types.Array)
 			key := heapKey(at.Elem(), nil)
-			h := c.epochGet(c.entry.ep, key)
+			h := c.entryHeap(key)
 			var es []string
 			for i := int64(0); i < at.Len(); i++ {
 				es = append(es, elem(sx("select", sx("select", h, p.V.Ref), num(i))))
@@ -411,10 +507,16 @@ func tryReplay(eng *Engine, o *Obligation, dir, name string) map[string]interfac
 	for _, im := range c.con.ReplayImports {
 		imports += fmt.Sprintf("\t%q\n", im)
 	}
+	call := fn.Name() + "(" + strings.Join(args, ", ") + ")"
+	callStmt := "\tres := govcWrap(" + call + ")\n"
+	if fn.Signature.Results().Len() == 0 {
+		callStmt = "\t" + call + "\n\tvar res []interface{}\n"
+	}
 	src := fmt.Sprintf(`package %s
 
 import (
 	"fmt"
+	"reflect"
 	"testing"
 %s)
 
@@ -426,18 +528,44 @@ func TestGovcReplay(t *testing.T) {
 			fmt.Println("GOVC-REPLAY returned normally")
 		}
 	}()
-%s	res := fmt.Sprint(func() []interface{} { return govcWrap(%s) }())
-	if len(res) > 400 {
-		res = res[:400]
+%s%s	for i, r := range res {
+		fmt.Printf("GOVC-RESULT %%d %%s\n", i, govcFmt(r))
 	}
-	fmt.Println("GOVC-REPLAY result:", res)
 }
 
 func govcWrap(rs ...interface{}) []interface{} { return rs }
-`, pkgName, imports, body.String(), fn.Name()+"("+strings.Join(args, ", ")+")")
-	if fn.Signature.Results().Len() == 0 {
-		src = strings.Replace(src, "res := fmt.Sprint(func() []interface{} { return govcWrap("+fn.Name()+"("+strings.Join(args, ", ")+")) }())", fn.Name()+"("+strings.Join(args, ", ")+")\n\tres := \"\"", 1)
+
+func govcFmt(r interface{}) string {
+	if r == nil {
+		return "nil"
 	}
+	v := reflect.ValueOf(r)
+	switch v.Kind() {
+	case reflect.Int, reflect.Int8, reflect.Int16, reflect.Int32, reflect.Int64:
+		return fmt.Sprintf("int:%%d", v.Int())
+	case reflect.Uint, reflect.Uint8, reflect.Uint16, reflect.Uint32, reflect.Uint64, reflect.Uintptr:
+		return fmt.Sprintf("int:%%d", v.Uint())
+	case reflect.Bool:
+		return fmt.Sprintf("bool:%%t", v.Bool())
+	case reflect.String:
+		return fmt.Sprintf("string:%%d:%%x", v.Len(), v.String())
+	case reflect.Slice:
+		if v.IsNil() {
+			return "nilslice"
+		}
+		if v.Type().Elem().Kind() == reflect.Uint8 {
+			return fmt.Sprintf("bytes:%%d:%%x", v.Len(), v.Bytes())
+		}
+		return fmt.Sprintf("slice:%%d", v.Len())
+	case reflect.Ptr, reflect.Interface, reflect.Map, reflect.Func, reflect.Chan:
+		if v.IsNil() {
+			return "nil"
+		}
+		return "nonnil"
+	}
+	return "other"
+}
+`, pkgName, imports, body.String(), callStmt)
 	rec := runReplayTest(fn.Pkg.Pkg.Path(), src, dir, name)
 	rec["inputs"] = inputs
 	out, _ := rec["output"].(string)
@@ -449,9 +577,100 @@ func govcWrap(rs ...interface{}) []interface{} { return rs }
 		if !panicked && returned {
 			rec["reason"] = "the real code returned normally on the model's input (the failed obligation is reported without a failing input)"
 		}
+	case "post":
+		rec["confirmed"] = false
+		if panicked {
+			rec["reason"] = "the real code panicked on the model's input (no result to evaluate the clause on)"
+			break
+		}
+		// pin the inputs and the observed scalar results: if the negated
+		// clause is still satisfiable the real outcome violates the clause;
+		// if it is unsatisfiable the engine's model of the code disagrees
+		// with the real execution (tool error, not a violation).
+		var obs []string
+		for _, ln := range strings.Split(out, "\n") {
+			var idx int
+			var val string
+			if n, _ := fmt.Sscanf(ln, "GOVC-RESULT %d %s", &idx, &val); n == 2 && idx < len(c.resultVals) {
+				rv := c.resultVals[idx]
+				switch {
+				case strings.HasPrefix(val, "int:") && rv.K == kInt:
+					n, ok := new(big.Int).SetString(val[4:], 10)
+					if ok {
+						obs = append(obs, eq(rv.S, bigNum(n)))
+					}
+				case strings.HasPrefix(val, "string:") && rv.K == kStr:
+					// identify the observed string with an input string element when possible
+					parts := strings.SplitN(val, ":", 3)
+					if len(parts) == 3 {
+						raw, _ := hex.DecodeString(parts[2])
+						matched := false
+						for _, el := range strElems {
+							if strOf[el] == string(raw) {
+								obs = append(obs, eq(rv.S, el))
+								matched = true
+								break
+							}
+						}
+						if !matched {
+							obs = append(obs, eq(sx("slen", rv.S), num(int64(len(raw)))))
+							for _, el := range strElems {
+								obs = append(obs, not(eq(rv.S, el)))
+							}
+						}
+					}
+				case strings.HasPrefix(val, "bool:") && rv.K == kBool:
+					obs = append(obs, eq(rv.S, val[5:]))
+				case val == "nil" && (rv.K == kIface || rv.K == kMap):
+					obs = append(obs, eq(rv.S, "0"))
+				case val == "nonnil" && (rv.K == kIface || rv.K == kMap):
+					obs = append(obs, not(eq(rv.S, "0")))
+				case val == "nil" && rv.K == kPtr:
+					obs = append(obs, eq(rv.Ref, "0"))
+				case val == "nilslice" && rv.K == kSlice:
+					obs = append(obs, eq(rv.Ref, "0"))
+				case (strings.HasPrefix(val, "bytes:") || strings.HasPrefix(val, "slice:")) && rv.K == kSlice:
+					var ln2 int
+					fmt.Sscanf(val[6:], "%d", &ln2)
+					obs = append(obs, eq(rv.Len, num(int64(ln2))))
+				}
+			}
+		}
+		pins2 := append([]string{}, pins...)
+		for t, v := range vals2 {
+			if !strings.Contains(v.String(), "!val!") {
+				pins2 = append(pins2, eq(t, v.String()))
+			}
+		}
+		for i := 0; i < len(strElems); i++ {
+			for j := i + 1; j < len(strElems); j++ {
+				a, b := vals2[strElems[i]], vals2[strElems[j]]
+				if a == nil || b == nil {
+					continue
+				}
+				if a.String() == b.String() {
+					pins2 = append(pins2, eq(strElems[i], strElems[j]))
+				} else {
+					pins2 = append(pins2, not(eq(strElems[i], strElems[j])))
+				}
+			}
+		}
+		_, okIn := getValues(o.queryFile, pins2, []string{"0"}, dir, name+".in")
+		_, okOut := getValues(o.queryFile, append(pins2, obs...), []string{"0"}, dir, name+".out")
+		rec["observed_constraints"] = obs
+		switch {
+		case okOut:
+			rec["confirmed"] = true
+			rec["reason"] = "with the inputs and the observed results fixed, the negated clause is still satisfiable: the real outcome violates the clause"
+		case okIn:
+			rec["reason"] = "ENGINE-MISMATCH: the real code's results differ from the engine's symbolic result on this input"
+			rec["engine_mismatch"] = true
+		default:
+			rec["reason"] = "the pinned model could not be re-established"
+		}
 	default:
 		rec["confirmed"] = false
-		rec["reason"] = "postcondition-type obligation: inputs replayed, outcome recorded, truth of the clause on the outcome not evaluated"
+		rec["reason"] = "invariant-type obligation: inputs replayed, outcome recorded; an intermediate state cannot be observed from outside"
 	}
 	return rec
 }
